@@ -525,11 +525,74 @@ package system
 //@   defines (err == nil) == parseOkK(4, value)
 //@   defines err == nil ==> box(res) == parseValK(4, value)
 //@   assigns nothing
+// C15: a parsed value never carries a fraction of a second that its layout (and so its string
+// form and its precision) does not show: whole milliseconds only, and none at all under a
+// seconds layout
 //@ func ParseDateTime(value) (res, err)
 //@   defines (err == nil) == parseOkK(5, value)
 //@   defines err == nil ==> box(res) == parseValK(5, value)
+//@   ensures err == nil ==> tNs(res.dateTime) % 1000000 == 0
+//@   ensures err == nil && (res.l == dtSecondLayout || res.l == dtSecondLayoutTZ) ==> tNs(res.dateTime) == 0
 //@   assigns nothing
 //@ func ParseTime(value) (res, err)
 //@   defines (err == nil) == parseOkK(6, value)
 //@   defines err == nil ==> box(res) == parseValK(6, value)
+//@   ensures err == nil ==> tNs(res.time) % 1000000 == 0
+//@   ensures err == nil && res.l == secondLayout ==> tNs(res.time) == 0
 //@   assigns nothing
+//@ func keepFraction(t, l) (rt, rl)
+//@   ensures tNs(rt) % 1000000 == 0 && tNs(rt) == tNs(t) - tNs(t) % 1000000
+//@   ensures tS(rt) == tS(t) && tMi(rt) == tMi(t) && tH(rt) == tH(t) && tD(rt) == tD(t) && tMo(rt) == tMo(t) && tY(rt) == tY(t) && tOff(rt) == tOff(t)
+//@   ensures tNs(t) == 0 ==> rt == t && rl == l
+//@   ensures tNs(t) != 0 && l == secondLayout ==> rl == millisecondLayout
+//@   ensures tNs(t) != 0 && l == dtSecondLayout ==> rl == dtMillisecondLayout
+//@   ensures tNs(t) != 0 && l == dtSecondLayoutTZ ==> rl == dtMillisecondLayoutTZ
+//@   ensures l != secondLayout && l != dtSecondLayout && l != dtSecondLayoutTZ ==> rl == l
+//@   assigns nothing
+//
+// ---- C15: System value <-> FHIR element conversions ----------------------------------------------
+// Both directions are stated over the same spec functions (todUs: microseconds into the day;
+// the instant in microseconds), so element -> System -> element is the identity on the value
+// and on every precision the System type has by substitution of one contract into the other.
+//@ func TimeFromProto(proto) (res)
+//@   requires proto != nil
+//@   assuming 0 <= proto.ValueUs && proto.ValueUs < 86400000000
+//@   ensures todUs(res.time) == int(proto.ValueUs) && tOff(res.time) == 0
+//@   ensures proto.Precision == dtpb.Time_SECOND ==> res.l == secondLayout
+//@   ensures proto.Precision == dtpb.Time_MILLISECOND || proto.Precision == dtpb.Time_MICROSECOND ==> res.l == millisecondLayout
+//@   assigns nothing
+//@ func (t Time) ToProtoTime() (res)
+//@   ensures res != nil
+//@   ensures fits(fdiv(tInst(t.time), 1000), int64(0)) ==> int(res.ValueUs) == todUs(t.time)
+//@   ensures t.l == millisecondLayout ==> res.Precision == dtpb.Time_MILLISECOND
+//@   ensures t.l != millisecondLayout ==> res.Precision == dtpb.Time_SECOND
+//@ func DateFromProto(proto) (res, err)
+//@   requires proto != nil
+//@   ensures err == nil ==> tInst(res.date) == int(proto.ValueUs) * 1000
+//@   ensures err == nil && proto.Precision == dtpb.Date_DAY ==> res.l == dayLayout
+//@   ensures err == nil && proto.Precision == dtpb.Date_MONTH ==> res.l == monthLayout
+//@   ensures err == nil && proto.Precision == dtpb.Date_YEAR ==> res.l == yearLayout
+//@   assigns nothing
+//@ func (d Date) ToProtoDate() (res)
+//@   ensures res != nil
+//@   ensures fits(fdiv(tInst(d.date), 1000), int64(0)) ==> int(res.ValueUs) == fdiv(tInst(d.date), 1000)
+//@   ensures d.l == dayLayout ==> res.Precision == dtpb.Date_DAY
+//@   ensures d.l == monthLayout ==> res.Precision == dtpb.Date_MONTH
+//@   ensures d.l == yearLayout ==> res.Precision == dtpb.Date_YEAR
+//@ func DateTimeFromProto(proto) (res, err)
+//@   requires proto != nil
+//@   ensures err == nil ==> tInst(res.dateTime) == int(proto.ValueUs) * 1000
+//@   ensures err == nil && proto.Precision == dtpb.DateTime_SECOND ==> res.l == dtSecondLayoutTZ
+//@   ensures err == nil && (proto.Precision == dtpb.DateTime_MILLISECOND || proto.Precision == dtpb.DateTime_MICROSECOND) ==> res.l == dtMillisecondLayoutTZ
+//@   ensures err == nil && proto.Precision == dtpb.DateTime_DAY ==> res.l == dtDayLayout
+//@   ensures err == nil && proto.Precision == dtpb.DateTime_MONTH ==> res.l == dtMonthLayout
+//@   ensures err == nil && proto.Precision == dtpb.DateTime_YEAR ==> res.l == dtYearLayout
+//@   assigns nothing
+//@ func (dt DateTime) ToProtoDateTime() (res)
+//@   ensures res != nil
+//@   ensures fits(fdiv(tInst(dt.dateTime), 1000), int64(0)) ==> int(res.ValueUs) == fdiv(tInst(dt.dateTime), 1000)
+//@   ensures dtPrec(dt.l) == 5 && (dt.l == dtMillisecondLayoutTZ || dt.l == dtMillisecondLayout) ==> res.Precision == dtpb.DateTime_MILLISECOND
+//@   ensures dt.l == dtSecondLayoutTZ || dt.l == dtSecondLayout ==> res.Precision == dtpb.DateTime_SECOND
+//@   ensures dt.l == dtDayLayout ==> res.Precision == dtpb.DateTime_DAY
+//@   ensures dt.l == dtMonthLayout ==> res.Precision == dtpb.DateTime_MONTH
+//@   ensures dt.l == dtYearLayout ==> res.Precision == dtpb.DateTime_YEAR
